@@ -133,6 +133,16 @@ class C05(L1Prop):
                         "http GET gcv hyph=nil hyph=1 absent e", "http POST av hyph=latest:1 hyph=1 history b:77",
                         "http GET snap - hyph=2 absent e", "dumpall"]
                 out.append(Case(f"c05-{s}-{kname}", ops, {"kind": kname, "plan": rf, "state": s}, mode="http"))
+        # the write lock is held elsewhere for several requests in a row (each waits its budget and fails at begin);
+        # then it is free again: requests are served at once, as ever
+        for s in range(sizes(tier, 1, 3)):
+            ops = state_prefix(random.Random(rng.getrandbits(32)), (1, 2))
+            ops += ["dumpall", "dump 9"]
+            for j in range(2 + s):
+                ops += ["lockbegin clients UPDATE", [f"av 1 latest:1 b:6,{j}", "gcv 1 latest:1", f"as 1 latest:1 b:8,{j}"][j % 3]]
+            ops += ["dumpall", "dump 9", "http GET gcv hyph=nil hyph=1 absent e", "http POST av hyph=latest:1 hyph=1 history b:77",
+                    "http GET snap - hyph=2 absent e", "http POST as hyph=latest:1 hyph=1 snapshot b:78", "dumpall"]
+            out.append(Case(f"c05-locked-{s}", ops, {"kind": "lock-repeated", "plan": "lockbegin x%d" % (2 + s), "state": s}, mode="http"))
         for s in range(nstates):
             seed = rng.getrandbits(32)
             for (kname, req) in self.KINDS:
